@@ -575,6 +575,7 @@ func GenRounds(rnd *rand.Rand, persist bool) RHist {
 		return p
 	}
 	vals := []string{"a", "b", "c"}
+
 	if rnd.Intn(4) == 0 {
 		// long binary values
 		for i := 0; i < 2; i++ {
@@ -692,6 +693,29 @@ func GenRounds(rnd *rand.Rand, persist bool) RHist {
 		}
 		ver += int64(1 + rnd.Intn(2))
 	}
+	return h
+}
+
+// GenRoundsMaxVal is a short persistent history around a value of exactly the largest accepted size (every observation
+// re-hashes the 10 MiB node, so it is kept to a handful of operations): the value is saved on a leaf, moves onto a branch
+// (a longer key is added below it), comes back to a leaf (lift), survives a crash inside a save and a prune.
+func GenRoundsMaxVal(rnd *rand.Rand) RHist {
+	h := RHist{Persist: true, Quiet: true}
+	big := MaxValToken('m')
+	pre := []string{"c", "d"}
+	if rnd.Intn(2) == 0 {
+		pre = []string{"5"}
+	}
+	P := func(tail string) []string {
+		return append(append([]string(nil), pre...), bridge.Chars([]byte(tail))...)
+	}
+	h.Ops = append(h.Ops,
+		ROp{Op: "round", Ver: 1}, ROp{Op: "ins", T: 0, P: P("56"), V: big}, ROp{Op: "ins", T: 0, P: P("00"), V: "a"}, ROp{Op: "save"},
+		ROp{Op: "round", Ver: 2}, ROp{Op: "open", T: 1}, ROp{Op: "ins", T: 1, P: P("5678"), V: "b"}, ROp{Op: "merge", T: 1}, ROp{Op: "save"},
+		ROp{Op: "round", Ver: 3}, ROp{Op: "del", T: 0, P: P("5678")}, ROp{Op: "del", T: 0, P: P("00")},
+		ROp{Op: "crash", K: rnd.Intn(2)}, ROp{Op: "save"},
+		ROp{Op: "round", Ver: 3}, ROp{Op: "del", T: 0, P: P("5678")}, ROp{Op: "del", T: 0, P: P("00")}, ROp{Op: "save"},
+		ROp{Op: "prune", Ver: 3})
 	return h
 }
 
